@@ -177,7 +177,7 @@ func (b *cgenBuilder) fill(v reflect.Value, path string, cx cgenCtx) {
 		tag := b.choose(path+"#tag", len(cgenWorkExecTags))
 		v.Field(0).SetString(string(cgenWorkExecTags[tag]))
 		if tag == 0 {
-			o := b.choose(path+".Data", len(cgenBlobs))
+			o := b.choose(path+".Data~", len(cgenBlobs))
 			v.Field(1).SetBytes(append([]byte(nil), cgenBlobs[o]...))
 		}
 		return
@@ -222,7 +222,7 @@ func (b *cgenBuilder) fill(v reflect.Value, path string, cx cgenCtx) {
 		dom := cgenIntDomain(cx.owner, cx.field, t.Bits())
 		v.SetUint(dom[b.choose(path, len(dom))])
 	case reflect.String:
-		v.SetString(cgenStrings[b.choose(path, len(cgenStrings))])
+		v.SetString(cgenStrings[b.choose(path+"~", len(cgenStrings))])
 	case reflect.Array:
 		if t.Elem().Kind() == reflect.Uint8 {
 			n := 2
@@ -240,7 +240,7 @@ func (b *cgenBuilder) fill(v reflect.Value, path string, cx cgenCtx) {
 		}
 	case reflect.Slice:
 		if t.Elem().Kind() == reflect.Uint8 {
-			o := b.choose(path, len(cgenBlobs))
+			o := b.choose(path+"~", len(cgenBlobs))
 			if cgenBlobs[o] != nil {
 				v.SetBytes(append([]byte(nil), cgenBlobs[o]...))
 			}
@@ -830,10 +830,28 @@ func cgenLoadSeeds(path string) ([]cgenSeed, error) {
 
 // cgenSeeds: the distinct encodings (<= maxLen bytes) of all values of ct
 // within <= k deviations, in enumeration order.
-func cgenSeeds(ct *cgenType, k, maxLen int) []cgenSeed {
+func cgenSeeds(ct *cgenType, k, maxLen int) []cgenSeed { return cgenSeedsSel(ct, k, maxLen, false) }
+
+// cgenDevStructural: a deviation that changes the shape of the encoding (a length,
+// an optional, a variant tag, a map's key set, a variable-length blob or string)
+// rather than the value of a fixed-width field. Blob/string choice points are
+// marked by the builder with a "~" suffix on the path.
+func cgenDevStructural(d cgenDev) bool {
+	return strings.HasSuffix(d.P, "#len") || strings.HasSuffix(d.P, "#keys") || strings.HasSuffix(d.P, "#some") ||
+		strings.HasSuffix(d.P, "#tag") || strings.HasSuffix(d.P, "~")
+}
+
+func cgenSeedsSel(ct *cgenType, k, maxLen int, structuralOnly bool) []cgenSeed {
 	var out []cgenSeed
 	seen := map[string]bool{}
 	cgenEnumerate(ct.T, k, ct.Ctx, func(devs []cgenDev, v reflect.Value, _ int) bool {
+		if structuralOnly {
+			for _, d := range devs {
+				if !cgenDevStructural(d) {
+					return true
+				}
+			}
+		}
 		if ct.T == cgenTASO && v.Len() > 1 {
 			// AccumulatedServiceOutput.Encode ranges over the map unsorted (C11
 			// finding): a value with two keys has no single encoding, so it cannot
@@ -1208,6 +1226,8 @@ type cgenChildSink struct {
 	evals, trans      uint64
 	skipped           uint64
 	hint              string
+	deadline          int64
+	capped            bool
 	classes           map[string]bool
 	sigs              map[string]*cgenPending
 	sinceFlush        int
@@ -1235,6 +1255,7 @@ func cgenIsChild() bool { return os.Getenv("CGEN_CHILD") == "1" }
 func cgenNewChildSink() (*cgenChildSink, error) {
 	s := &cgenChildSink{classes: map[string]bool{}, sigs: map[string]*cgenPending{}}
 	fmt.Sscanf(os.Getenv("CGEN_FROM"), "%d:%d", &s.fromUnit, &s.fromOrd)
+	s.deadline, _ = strconv.ParseInt(os.Getenv("CGEN_DEADLINE"), 10, 64)
 	f, err := os.OpenFile(os.Getenv("CGEN_CUR"), os.O_RDWR|os.O_CREATE, 0o644)
 	if err != nil {
 		return nil, err
@@ -1266,6 +1287,13 @@ func (s *cgenChildSink) writeRec(unit, ord uint64, done byte) {
 
 func (s *cgenChildSink) Begin(unit, ord uint64) bool {
 	if unit < s.fromUnit || (unit == s.fromUnit && ord < s.fromOrd) {
+		return false
+	}
+	if s.capped {
+		return false
+	}
+	if s.deadline != 0 && s.sinceFlush&1023 == 0 && time.Now().Unix() >= s.deadline {
+		s.capped = true
 		return false
 	}
 	s.writeRec(unit, ord, 0)
@@ -1329,6 +1357,11 @@ func (s *cgenChildSink) flushCounts() {
 
 func (s *cgenChildSink) Done() {
 	s.flushCounts()
+	if s.capped {
+		s.writeRec(^uint64(0), 0, 2)
+		s.emit(cgenEvent{T: "capped"})
+		return
+	}
 	s.writeRec(^uint64(0), 0, 1)
 	s.emit(cgenEvent{T: "done"})
 }
@@ -1357,6 +1390,10 @@ func cgenParentRun(r *vlib.Run, t *testing.T, testName string, seeds []cgenSeed,
 	fromUnit, fromOrd := uint64(0), uint64(0)
 	deaths := 0
 	t0 := time.Now()
+	deadline := int64(0)
+	if ds, _ := strconv.Atoi(os.Getenv("VERIF_DEADLINE_S")); ds > 0 {
+		deadline = t0.Unix() + int64(ds) - 20
+	}
 	for {
 		tc := time.Now()
 		os.Remove(curPath)
@@ -1373,7 +1410,7 @@ func cgenParentRun(r *vlib.Run, t *testing.T, testName string, seeds []cgenSeed,
 		}
 		sort.Strings(cr)
 		cmd.Env = append(env, "VERIF_OUT=", "CGEN_CHILD=1", fmt.Sprintf("CGEN_FROM=%d:%d", fromUnit, fromOrd), "CGEN_CUR="+curPath,
-			"CGEN_CRASHED="+strings.Join(cr, ";;"), "CGEN_SEEDS="+seedsPath)
+			"CGEN_CRASHED="+strings.Join(cr, ";;"), "CGEN_SEEDS="+seedsPath, fmt.Sprintf("CGEN_DEADLINE=%d", deadline))
 		if extraEnv != nil {
 			cmd.Env = append(cmd.Env, extraEnv()...)
 		}
@@ -1411,6 +1448,9 @@ func cgenParentRun(r *vlib.Run, t *testing.T, testName string, seeds []cgenSeed,
 				}
 			case "done":
 				done = true
+			case "capped":
+				done = true
+				r.Cap("deadline")
 			}
 		}
 		cmd.Wait()
@@ -1427,7 +1467,7 @@ func cgenParentRun(r *vlib.Run, t *testing.T, testName string, seeds []cgenSeed,
 		r.TransitionN(binary.LittleEndian.Uint64(rec[24:]))
 		r.Space(binary.LittleEndian.Uint64(rec[16:]))
 		skipped += binary.LittleEndian.Uint64(rec[152:])
-		if done && rec[32] == 1 {
+		if done && (rec[32] == 1 || rec[32] == 2) {
 			return skipped
 		}
 		tail := stderr.String() + otherOut.String()
